@@ -80,9 +80,11 @@ class Roll(Operation):
     def backward_var(self, grad, index, **kwargs):
         if not index == 0:  # pragma: no cover
             raise IndexError
+        # `int` keeps unsigned NumPy integers from wrapping when negated;
+        # a 0-d array is a scalar shift even though it has `__iter__`
         rev_shift = (
-            -self.shift
-            if not hasattr(self.shift, "__iter__")
-            else tuple(-i for i in self.shift)
+            -int(self.shift)
+            if np.ndim(self.shift) == 0
+            else tuple(-int(i) for i in self.shift)
         )
         return np.roll(grad, axis=self.axis, shift=rev_shift)
